@@ -631,7 +631,7 @@ def P_final(ctx, lib):
             caps = flow.resolve_captures(lib, c) or []
             capvals = []
             for ce in caps:
-                capvals.append(INT if ce == ("param", 2) else RES)
+                capvals.append(INT if flow.is_oparam(ce, 2, "NoGoodStore::conclusions") else RES)
             env = eng2.closure_env(st, c, capvals)
             paths = [p for p in eng2.summarise(c, [env, shared.ref_to(st, ELEM)], st) if p.end == "return"]
             # result true iff elem.is_violating(result) || elem.is_violating(interp)
@@ -660,7 +660,7 @@ def P_final(ctx, lib):
             st = symx.State()
             ELEM, INT = ("sym", "elem"), ("sym", "interp")
             caps = flow.resolve_captures(lib, c) or []
-            env = eng2.closure_env(st, c, [INT if ce == ("param", 2) else ("sym", "other") for ce in caps])
+            env = eng2.closure_env(st, c, [INT if flow.is_oparam(ce, 2, "NoGoodStore::conclusions") else ("sym", "other") for ce in caps])
             paths = [p for p in eng2.summarise(c, [env, shared.ref_to(st, ELEM)], st) if p.end == "return"]
             ok = len(paths) == 1 and is_call(strip(paths[0].ret), "NoGood::conclude") and deep_strip(strip(paths[0].ret)[2][0]) == ELEM and deep_strip(strip(paths[0].ret)[2][1]) == INT
             ctx.ob(rule, "bucket-conclusions-from-conclude", ok, where=c.where(), expected="ng.conclude(interpretation)", found=[show(p.ret)[:120] for p in paths])
